@@ -307,6 +307,34 @@ theorem logLE_openLog (sid : SId) (st : Store α) : LogLE st (openLog sid st) :=
   · subst hk; exact ⟨[], by simp [h]⟩
   · exact ⟨[], by simp [openLog_other _ _ _ hk, h]⟩
 
+/-! ### `EventStore.After` -/
+
+/-- `After` succeeded on a connection with a store: the session is open, the stream is known and the position
+right after the resume point has not been evicted; it yields the non-empty payloads from there on -/
+theorem replayItems_some {c : Conn α} {sid frm : Nat} {items : List (Item α)} (hst : c.cfg.hasStore = true)
+    (h : replayItems c sid frm = some items) :
+    c.isDone = false ∧ ∃ log, c.store sid = some log ∧ ¬ frm < c.purged sid ∧ items = toReplay log frm := by
+  simp only [replayItems, hst, if_true] at h
+  split at h
+  · cases h
+  · rename_i hd
+    split at h
+    · cases h
+    · rename_i log hlog
+      split at h
+      · cases h
+      · rename_i hp
+        exact ⟨by simpa using hd, log, hlog, hp, by simpa using h.symm⟩
+
+theorem replayItems_nostore {c : Conn α} {sid frm : Nat} {items : List (Item α)} (hst : c.cfg.hasStore = false)
+    (h : replayItems c sid frm = some items) : items = [] := by
+  simp [replayItems, hst] at h; exact h
+
+theorem replayItems_eq {c : Conn α} {sid frm : Nat} {log : List (Option (Item α))} (hst : c.cfg.hasStore = true)
+    (hd : c.isDone = false) (hl : c.store sid = some log) (hp : ¬ frm < c.purged sid) :
+    replayItems c sid frm = some (toReplay log frm) := by
+  simp [replayItems, hst, hd, hl, hp]
+
 /-! ### log segments -/
 
 /-- the SSE event that carries log entry `x` of stream `sid` at index `i` (with a store) -/
